@@ -928,19 +928,17 @@ Proof.
     assert (Hnot : ~ (isPawnPiece pc = true /\ Z.of_N t = epSquare p)).
     { intros (A & B). rewrite (isEp_must A B) in Hm. discriminate. }
     assert (HM1 : M < 2 ^ 64) by (unfold M; destruct incl; vm_compute; reflexivity).
-    assert (Hres : forall k, N.testbit (if negb (M =? 0)
-                     then forSquares M (fun mask x =>
-                            if negb (boardAt (epBoardBefore q m pc cap false (sqX t) yDn oPawn) (mkSq x yUp) =? EMPTY) ||
-                               negb (boardAt (epBoardBefore q m pc cap false (sqX t) yDn oPawn) (mkSq x y) =? EMPTY) ||
-                               negb (boardAt (epBoardBefore q m pc cap false (sqX t) yDn oPawn) (mkSq x yDn) =? oPawn) then mask
-                            else if ((0 <? x) && (boardAt (epBoardBefore q m pc cap false (sqX t) yDn oPawn) (mkSq (x - 1) yDn) =? (if w then WPAWN else BPAWN))) ||
-                                    ((x <? 7) && (boardAt (epBoardBefore q m pc cap false (sqX t) yDn oPawn) (mkSq (x + 1) yDn) =? (if w then WPAWN else BPAWN)))
-                            then N.lor mask (bit x) else mask) (bit 8)
-                     else bit 8) k = true <->
+    match goal with |- context [epFiles ?R] => set (res := R) end.
+    assert (Hres : forall k, N.testbit res k = true <->
                    k = 8 \/ (N.testbit M k = true /\ epFileOk (epBoardBefore q m pc cap false (sqX t) yDn oPawn) w k = true)).
-    { intro k. destruct (N.eqb_spec M 0) as [E0|E0]; cbn [negb].
+    { intro k. unfold res. destruct (N.eqb_spec M 0) as [E0|E0]; cbn [negb].
       - rewrite bit_bits, N.eqb_eq, E0, N.bits_0. split; [intro H; left; auto | intros [H|(H & _)]; [auto | discriminate]].
-      - rewrite (epLoop_bits _ w M (bit 8) k HM1). rewrite bit_bits, N.eqb_eq. split; intros [H|H]; auto. }
+      - split.
+        + intro Hi. apply (epLoop_bits (epBoardBefore q m pc cap false (sqX t) yDn oPawn) w M (bit 8) k HM1) in Hi.
+          rewrite bit_bits, N.eqb_eq in Hi. destruct Hi as [Hi|Hi]; auto.
+        + intro Hi. apply (epLoop_bits (epBoardBefore q m pc cap false (sqX t) yDn oPawn) w M (bit 8) k HM1).
+          rewrite bit_bits, N.eqb_eq. destruct Hi as [Hi|Hi]; auto. }
+    clearbody res.
     destruct (Z.eq_dec (epSquare p) (-1)) as [Em|Em].
     + exists 8. split; [|split; [|exact Hfin]].
       * apply epFiles_In.
@@ -961,4 +959,47 @@ Proof.
       * rewrite (epSquareOfFile_ep e H1). symmetry. exact H1.
 Qed.
 
+(** ** the candidate with the undo information of the predecessor *)
+Lemma undo_of_make : snd (makeMove zk p m) = mkUndo cap (castleMask p) (epSquare p) (halfMoveClock p).
+Proof. reflexivity. Qed.
+
+Theorem candidate_of_raw incl :
+  (incl = true \/ epSquare p = (-1)%Z \/ (isPawnPiece pc = true /\ Z.of_N t = epSquare p)) ->
+  In (mkUnMove m (withClock (snd (makeMove zk p m)) 0)) (candidatesFor q incl m).
+Proof.
+  intro Hinc. apply candidatesFor_In. cbv zeta.
+  rewrite whiteMove_q, negb_involutive, movingPiece_eq.
+  destruct captured_eq as (Hcap & Hin).
+  destruct castle_alternative as (castle & Hc1 & Hc2).
+  destruct (ep_alternative incl Hinc) as (epFile & He1 & He2 & He3).
+  exists (makeWhite cap), castle, epFile. fold w. rewrite Hcap.
+  split; [exact Hin|]. split; [apply validCapture_ok|]. split; [exact Hc1|]. split; [exact He1|].
+  split; [rewrite He2; exact He3|].
+  rewrite Hc2, He2. reflexivity.
+Qed.
+
 End Cand.
+
+(** * Completeness of genMoves, given that the reverse move itself is generated *)
+Section CompleteGivenRaw.
+Variable zk : zkeys.
+Hypothesis EKZ : emptyKeysZero zk.
+
+Theorem complete_given_raw p m incl :
+  WFrev zk p -> MoveFacts p m ->
+  (incl = true \/ epSquare p = (-1)%Z \/
+   (isPawnPiece (getPiece p (mfrom m)) = true /\ Z.of_N (mto m) = epSquare p)) ->
+  let q := successor zk p m in
+  let ui0 := withClock (snd (makeMove zk p m)) 0 in
+  In m (revMoveList q) ->
+  In (mkUnMove m ui0) (genMoves zk q incl) /\
+  normEmpty (unMakeMove zk q m ui0) = normEmpty (set_halfMoveClock p 0).
+Proof.
+  intros Hrev MF Hinc q ui0 Hraw. split.
+  - apply genMoves_In. split.
+    + apply candidates_In. exists m. split; [exact Hraw|]. apply (candidate_of_raw zk p m Hrev MF incl Hinc).
+    + cbn [um_move um_ui]. apply (restored_not_knownInvalid zk EKZ p m Hrev (mf_ok p m MF) (mf_push p m MF)).
+  - destruct Hrev as [Cp _ _ _ _]. apply (restore_clock0 zk EKZ p m Cp (mf_ok p m MF)).
+Qed.
+
+End CompleteGivenRaw.
